@@ -125,4 +125,65 @@ theorem entry_sem (d : α) (e : Entry) (he : e ∈ table) (p : Params) (st : Sto
   simp only [Entry.check, hpre, Bool.not_true, Bool.false_or] at this
   exact spec_sem d st ops _ _ hv this
 
+/-! ### the flags the driver reports are consequences -/
+
+theorem pure_wlog (d : α) (st0 : Store α) (ops : List View) (p : Prog)
+    (h : pureProg ops.length p = true) : ∀ w ∈ (exec d st0 ops p).wlog, st0.length ≤ w.buf := by
+  intro w hw
+  have I := exec_inv d st0 ops p
+  obtain ⟨ρ, hρ, hs⟩ := I.wsound w hw
+  have : ρ = .fresh := by
+    have := List.all_eq_true.mp h ρ hρ
+    simpa using this
+  subst this
+  exact hs
+
+/-- For an entry that passes the `pureFresh` check the executable outcome that the driver
+sends to the harness is "nothing mutated, nothing shared" – on every store and layout. -/
+theorem outcome_pureFresh (d : α) (st : Store α) (ops : List View) (B : Built) (hv : ValidOps st ops)
+    (h : specCheck .pureFresh ops.length B = true) :
+    outcome d st ops B.prog (B.res.map (·.2)) = ⟨[], []⟩ := by
+  simp only [specCheck, Bool.and_eq_true] at h
+  have hw := pure_wlog d st ops B.prog h.1
+  have hr := freshResults_sound d st ops B.prog _ h.2
+  have hop : ∀ k, k < ops.length → (ops.getD k default).buf < st.length := by
+    intro k hk
+    apply hv
+    rw [List.getD_eq_getElem?_getD, List.getElem?_eq_getElem hk]
+    exact List.getElem_mem hk
+  unfold outcome
+  simp only []
+  congr 1
+  · -- mutated
+    rw [List.map_eq_nil_iff, List.filter_eq_nil_iff]
+    intro o ho
+    obtain ⟨k, hk, rfl⟩ := List.mem_map.mp ho
+    have hk' : k < ops.length := List.mem_range.mp hk
+    simp only [Bool.not_eq_true]
+    apply Bool.eq_false_iff.mpr
+    intro hc
+    obtain ⟨w, hw1, hw2⟩ := List.any_eq_true.mp hc
+    have := hw w hw1
+    have h2 := hop k hk'
+    have hne : w.buf ≠ (ops.getD k default).buf := by omega
+    rw [overlaps_of_buf_ne _ _ hne] at hw2
+    cases hw2
+  · -- share
+    rw [List.flatMap_eq_nil_iff]
+    intro j hj
+    rw [List.filterMap_eq_nil_iff]
+    intro o ho
+    obtain ⟨k, hk, rfl⟩ := List.mem_map.mp ho
+    have hk' : k < ops.length := List.mem_range.mp hk
+    have hj' : j < (B.res.map (·.2)).length := List.mem_range.mp hj
+    have hmem : (B.res.map (·.2)).getD j 0 ∈ B.res.map (·.2) := by
+      rw [List.getD_eq_getElem?_getD, List.getElem?_eq_getElem hj']
+      exact List.getElem_mem hj'
+    have := hr _ hmem
+    have h2 := hop k hk'
+    have hne : ((exec d st ops B.prog).reg ((B.res.map (·.2)).getD j 0)).buf ≠ (ops.getD k default).buf := by
+      omega
+    simp only [overlaps_of_buf_ne _ _ hne]
+    rfl
+
 end Pyttb.Heap
